@@ -38,12 +38,12 @@ def with_want(scens, want):
 
 
 def fam_general(rng, tier):
-    return (gen.fam_boundaries(rng) + gen.fam_fixed(rng, n(tier, 60, 400)) + gen.fam_stream(rng, n(tier, 150, 1500)) + gen.fam_garbage(rng, n(tier, 80, 600)) +
+    return (gen.fam_boundaries(rng) + gen.fam_fixed(rng, n(tier, 60, 400)) + gen.fam_fixed_counts(rng, tier) + gen.fam_stream(rng, n(tier, 150, 1500)) + gen.fam_garbage(rng, n(tier, 80, 600)) +
             gen.fam_orphan(rng, n(tier, 60, 500)) + gen.fam_allowed_mix(rng, n(tier, 80, 600)))
 
 
 def fam_fixed_all(rng, tier):
-    return gen.fam_fixed(rng, n(tier, 120, 1200), max_recs=n(tier, 40, 200)) + gen.fam_fixed_protocols(rng) + \
+    return gen.fam_fixed(rng, n(tier, 120, 1200), max_recs=n(tier, 40, 200)) + gen.fam_fixed_counts(rng, tier) + gen.fam_fixed_protocols(rng) + \
         gen.fam_stream(rng, n(tier, 40, 300), versions=(5, 7))
 
 
@@ -58,7 +58,7 @@ def fam_ipfix(rng, tier):
     return gen.fam_boundaries(rng) + gen.fam_stream(rng, n(tier, 200, 2000), versions=(10,), calls=(1, 5)) + gen.fam_redefine(rng, n(tier, 40, 300)) + \
         gen.fam_stream(rng, n(tier, 300, 3000), versions=(10,), calls=(1, 5), lossless=True, simple_ipfix=True) + \
         gen.fam_stream(rng, n(tier, 100, 800), versions=(10,), calls=(1, 4), lossless=True, simple_ipfix=True, wild=True) + \
-        gen.fam_widths(rng, 10, sample=n(tier, 150, None))
+        gen.fam_widths(rng, 10, sample=n(tier, 150, None)) + gen.fam_rejected_template(rng, n(tier, 40, 300), want=["export"])
 
 
 def fam_cache(rng, tier):
